@@ -351,3 +351,101 @@ func c05SampleThenScan(c *Ctx) {
 	sort.Strings(names)
 	c.Extra["sampling_functions"] = strings.Join(names, ",")
 }
+
+// c05ReplacementInstalled (R9): a pushed host set is always installed.
+// "Current host set" in the property is the last set pushed by UpdateClusterHosts / AppendClusterHosts /
+// RemoveClusterHosts / AddOrUpdateClusterAndHost. Everything a balancer returns afterwards comes out of the snapshot
+// Cluster.UpdateHosts publishes, so the clause is a must-pass-through: (a) every function used as the host update handler
+// of clusterManager.UpdateHosts (a function value passed as its third argument) calls Cluster.UpdateHosts on every path
+// from its entry to its return - no early return keeps the previous set; (b) clusterManager.UpdateHosts calls the handler
+// on every path that reports success, skipping it only when the handler is nil.
+func c05ReplacementInstalled(c *Ctx) {
+	pkg := "pkg/upstream/cluster"
+	up := c.M(pkg, "clusterManager", "UpdateHosts")
+	if up == nil || len(up.Params) < 4 {
+		c.Unresolved("C05.R9", "clusterManager.UpdateHosts")
+		return
+	}
+	isInstall := func(in ssa.Instruction) bool {
+		ci, ok := in.(*ssa.Call)
+		return ok && methodName(ci.Common()) == "UpdateHosts" && ci.Common().IsInvoke()
+	}
+	handlers := map[*ssa.Function]bool{}
+	for _, fn := range c.PkgFuncs(pkg) {
+		for _, cs := range callsIn(fn, false, func(cc *ssa.CallCommon) bool { return cc.StaticCallee() == up }) {
+			args := cs.Instr.Common().Args
+			h := args[len(args)-1]
+			for {
+				ct, isCT := h.(*ssa.ChangeType)
+				if !isCT {
+					break
+				}
+				h = ct.X
+			}
+			switch x := h.(type) {
+			case *ssa.Function:
+				handlers[x] = true
+			case *ssa.MakeClosure:
+				handlers[x.Fn.(*ssa.Function)] = true
+			case *ssa.Const:
+				// nil handler: refresh only
+			case *ssa.Parameter:
+				// pass-through (UpdateHosts of a wrapper): judged at the wrapper's callers
+			default:
+				c.Unresolved("C05.R9", "host update handler passed at "+shortPos(c, cs.Instr.Pos()))
+			}
+		}
+	}
+	// NewSimpleHostHandler is also called directly when a cluster is added with its hosts
+	for _, name := range []string{"NewSimpleHostHandler", "AppendSimpleHostHandler"} {
+		if f := c.F(pkg, name); f != nil {
+			handlers[f] = true
+		}
+	}
+	var hs []*ssa.Function
+	for h := range handlers {
+		hs = append(hs, h)
+	}
+	sort.Slice(hs, func(i, j int) bool { return hs[i].String() < hs[j].String() })
+	for _, h := range hs {
+		bad := existsPath(h, nil, isReturn, isInstall)
+		pos := h.Pos()
+		if bad != nil {
+			pos = nearestPos(bad)
+		}
+		c.Check("C05.R9", funcKey(h)+":replacement-installed", pos, bad == nil, "every path of the handler reaches Cluster.UpdateHosts", "the host update handler can return without installing the pushed host set: the cluster keeps its previous hosts, and every balancer keeps returning hosts that are no longer members of the current host set")
+	}
+	if len(hs) < 3 {
+		c.Unresolved("C05.R9", fmt.Sprintf("host update handlers of clusterManager.UpdateHosts (found %d)", len(hs)))
+	}
+	// (b)
+	hp := up.Params[len(up.Params)-1]
+	isHandlerCall := func(in ssa.Instruction) bool {
+		ci, ok := in.(*ssa.Call)
+		return ok && ci.Common().Value == ssa.Value(hp)
+	}
+	ok := true
+	var at token.Pos = up.Pos()
+	for _, rs := range returnSites(up, 0) {
+		if !isNilConst(rs.val) {
+			continue
+		}
+		// walk back: a success return not preceded by the handler call on some path, other than the nil-handler edge
+		if p := existsPathEdges(up, nil, func(in ssa.Instruction) bool { return in == rs.at }, isHandlerCall, func(from, to *ssa.BasicBlock) bool {
+			if ifi, isIf := from.Instrs[len(from.Instrs)-1].(*ssa.If); isIf {
+				if bo, isBO := ifi.Cond.(*ssa.BinOp); isBO && bo.X == ssa.Value(hp) && isNilConst(bo.Y) {
+					// only the "handler is nil" edge may skip the call
+					nilEdge := from.Succs[0]
+					if bo.Op == token.NEQ {
+						nilEdge = from.Succs[1]
+					}
+					return to != nilEdge
+				}
+			}
+			return true
+		}); p != nil {
+			ok, at = false, nearestPos(p)
+		}
+	}
+	c.Check("C05.R9", funcKey(up)+":handler-always-called", at, ok, "success is reported only after the handler ran", "clusterManager.UpdateHosts can report success without running the host update handler: the pushed host set is dropped")
+}
